@@ -1261,7 +1261,8 @@ where
                 // exclude the timeout argument
                 for i in 1..(arg_len - 1) {
                     let key = match cmd_ctx.get_cmd().get_command_element(i) {
-                        None => break, // invalid state
+                        // Not a bulk string. Skipping it could leave nothing to poll for.
+                        None => return Err(Resp::Error(b"ERR invalid key argument".to_vec())),
                         Some(key) => key.to_vec(),
                     };
                     let non_blocking_cmd =
